@@ -14,7 +14,8 @@ Definition enc (r : row) : N :=
 Inductive stmt :=
 | SIns (r : row) (n : N)                               (* INSERT n copies of r *)
 | SDel (ci : nat) (v : cell)                           (* DELETE WHERE c_ci <=> v *)
-| SUpd (ci : nat) (v : cell) (cj : nat) (w : cell).    (* UPDATE SET c_cj = w WHERE c_ci <=> v *)
+| SUpd (ci : nat) (v : cell) (cj : nat) (w : cell)     (* UPDATE SET c_cj = w WHERE c_ci <=> v *)
+| SDelL (ci : nat) (v : cell) (n : N).                 (* DELETE WHERE c_ci <=> v LIMIT n: any n matching copies *)
 
 Definition mstate := list (row * N).                    (* SELECT cols, COUNT( * ) GROUP BY cols *)
 
@@ -100,13 +101,29 @@ Definition expected (prev : mstate) (st : stmt) (x : row) : N :=
   | SUpd ci v cj w =>
       (if matches ci v x then 0 else mlookup x prev)
       + msum (filter (fun e => matches ci v (fst e) && row_eqb (set_nth cj w (fst e)) x) prev)
+  | SDelL _ _ _ => mlookup x prev      (* not a function of the statement: see limit_ok *)
   end.
+
+(* DELETE ... LIMIT n: which copies go is the engine's choice; as a multiset statement: no multiplicity
+   grows, only matching rows lose copies, and exactly min(n, number of matching copies) copies go *)
+Definition limit_ok (prev new : mstate) (ci : nat) (v : cell) (n : N) : bool :=
+  forallb (fun x => (mlookup x new <=? mlookup x prev)
+                    && (matches ci v x || (mlookup x new =? mlookup x prev))) (map fst prev ++ map fst new)
+  && (msum new <=? msum prev)
+  && (msum prev - msum new =? N.min n (msum (filter (fun e => matches ci v (fst e)) prev))).
 
 Definition touched (prev : mstate) (st : stmt) : list row :=
   match st with
   | SIns r _ => [r]
   | SDel _ _ => []
+  | SDelL _ _ _ => []
   | SUpd _ _ cj w => map (fun e => set_nth cj w (fst e)) prev
+  end.
+
+Definition trans_ok (prev : mstate) (st : stmt) (new : mstate) : bool :=
+  match st with
+  | SDelL ci v n => limit_ok prev new ci v n
+  | _ => forallb (fun x => mlookup x new =? expected prev st x) (map fst prev ++ map fst new ++ touched prev st)
   end.
 
 Fixpoint nodup_rows (m : mstate) : bool :=
@@ -119,7 +136,7 @@ Fixpoint steps_ok (prev : mstate) (steps : list (stmt * list op * cell)) (os : l
       let new := so_state o in
       nodup_rows new
       && forallb (fun e => 0 <? snd e) new
-      && forallb (fun x => mlookup x new =? expected prev st x) (map fst prev ++ map fst new ++ touched prev st)
+      && trans_ok prev st new
       && (so_count o =? msum new)                      (* COUNT( * ) and the scan reflect the multiplicities *)
       && (so_ix o =? mprobe p new)                     (* so does the lookup through the secondary index *)
       && steps_ok new steps' os'
